@@ -448,7 +448,7 @@ def count_paths(cfg, cap=10**9):
     return go(cfg.entry)
 
 
-def follow_helpers(prog, f, step, follow=None, max_depth=3):
+def follow_helpers(prog, f, step, follow=None, max_depth=3, edge=None):
     """Interprocedural version of a dataflow transfer function: at a node whose expression is a call of a helper (a function
     with a body defined in the same source file or the same class as f - e.g. an extracted static function or private member),
     the helper's own control-flow graph is explored from the current state with the same transfer function, and the states at
@@ -483,7 +483,7 @@ def follow_helpers(prog, f, step, follow=None, max_depth=3):
                         cfgs[h.get('id')] = CFG(h)
                     g = cfgs[h['id']]
                     try:
-                        reached, _ = dataflow(g, o, make(depth + 1))
+                        reached, _ = dataflow(g, o, make(depth + 1), edge)
                         cache[key] = list(reached.get(g.exit.id, set())) or [o]
                     except RuntimeError:
                         cache[key] = [o]
